@@ -45,6 +45,18 @@ def dyadic_init(model, seed=0, den=16, lim=24, positive=False):
     return model
 
 
+def generic_bn(model, seed=0):
+    """BatchNorm layers with eps > 0 of the same order as small running variances: 1/sqrt(var+eps) is then neither dyadic nor
+    close to 1/(sqrt(var)+eps) or 1/sqrt(var); checks using it compare outputs up to a stated tolerance"""
+    rng = random.Random(2000 + seed)
+    with torch.no_grad():
+        for m in model.modules():
+            if isinstance(m, (nn.BatchNorm1d, nn.BatchNorm2d)):
+                m.eps = 0.125
+                m.running_var.copy_(torch.tensor([rng.choice([1 / 64, 1 / 16, 0.3]) for _ in range(m.num_features)]))
+    return model
+
+
 # ---------------------------------------------------------------------------------------------------------------------
 # program grammar
 # ---------------------------------------------------------------------------------------------------------------------
@@ -76,10 +88,11 @@ class T1(nn.Module):
 class T2(nn.Module):
     """pad-Conv1d-BN-ReLU-pad-Conv1d(no bias)-BN-flatten-Linear-(BN)-ReLU-Linear"""
 
-    def __init__(self, K0=3, K1=2, C0=2, C1=2, T=4, cin=1, lin_bn=True, H=3):
+    def __init__(self, K0=3, K1=2, C0=2, C1=2, T=4, cin=1, lin_bn=True, H=3, s0=1):
         super().__init__()
         self.pad0 = nn.ConstantPad1d((K0 - 1, 0), 0)
-        self.c0 = nn.Conv1d(cin, C0, K0)
+        self.c0 = nn.Conv1d(cin, C0, K0, stride=s0)
+        T = (T - 1) // s0 + 1
         self.bn0 = nn.BatchNorm1d(C0)
         self.pad1 = nn.ConstantPad1d((K1 - 1, 0), 0)
         self.c1 = nn.Conv1d(C0, C1, K1, bias=False)
@@ -246,14 +259,16 @@ def prog_id(spec):
 def build_program(spec, seed=0, positive=False):
     """-> (nn.Module with dyadic generic weights, input shape without batch)"""
     fam = spec['fam']
-    kw = {k: v for k, v in spec.items() if k not in ('fam', 'pit', 'id', 'tier', 'seed', 'selftest', 'T', 'exclude')}
-    if fam in ('F1', 'K2', 'T2') and 'T' in spec:
+    kw = {k: v for k, v in spec.items() if k not in ('fam', 'pit', 'id', 'tier', 'seed', 'selftest', 'T', 'exclude', 'bn_stats')}
+    if fam in ('F1', 'K2', 'T2', 'H1') and 'T' in spec:
         kw['T'] = spec['T']
-    if fam == 'K1' and 'origins' in kw:
+    if fam in ('K1', 'K3') and 'origins' in kw:
         kw['origins'] = tuple(kw['origins'])
     torch.manual_seed(seed)
     m = FAMILIES[fam](**kw)
     dyadic_init(m, seed, positive=positive)
+    if spec.get('bn_stats') == 'generic':
+        generic_bn(m, seed)
     if fam == 'T1':
         rf = (spec.get('K', 3) - 1) * spec.get('d0', 1) + 1
         shape = (spec.get('cin', 1), spec.get('T', rf + 2))
@@ -287,7 +302,7 @@ def make_pit(spec, seed=0, positive=False, **pit_kw):
     model, shape = build_program(spec, seed, positive)
     kw = dict(spec.get('pit', {}))
     kw.update(pit_kw)
-    if spec['fam'] == 'K1':
+    if spec['fam'] in ('K1', 'K3'):
         kw.setdefault('exclude_names', model.fixed_names())
     if spec.get('exclude') == 'name':
         kw.setdefault('exclude_names', ('b',))
@@ -544,6 +559,45 @@ class X1(nn.Module):
         return self.c(torch.relu(self.b(x.flatten(1))))
 
 
-FAMILIES.update({'F1': F1, 'Q1': Q1, 'W1': W1, 'X1': X1})
+class K3(nn.Module):
+    """DenseNet-style nested channel concat: d1 = cat(x, f1(x)); d2 = cat(d1, f2(d1)); searchable consumer of d2.
+    origins[i] in {'s', 'f'} says whether f1 / f2 are searchable or fixed (excluded); the three leaves have different widths"""
+
+    def __init__(self, origins=('f', 'f'), C=2, cin=1):
+        super().__init__()
+        self.origins = tuple(origins)
+        self.inp = nn.Identity()
+        self.f1 = nn.Conv1d(cin, C, 1)
+        self.f2 = nn.Conv1d(cin + C, C + 1, 1)
+        self.cons = nn.Conv1d(cin + C + C + 1, C, 1)
+        self.out = nn.Conv1d(C, 2, 1)
+
+    def forward(self, x):
+        d1 = torch.cat([self.inp(x), torch.relu(self.f1(x))], dim=1)
+        d2 = torch.cat([d1, torch.relu(self.f2(d1))], dim=1)
+        return self.out(torch.relu(self.cons(d2)))
+
+    def fixed_names(self):
+        return tuple(n for n, o in zip(('f1', 'f2'), self.origins) if o == 'f')
+
+
+class H1(nn.Module):
+    """multi-resolution head: two searchable convs at different time resolutions, flattened separately, concatenated, Linear"""
+
+    def __init__(self, C=2, cin=1, T=2, H=2):
+        super().__init__()
+        self.c0 = nn.Conv1d(cin, C, 1)
+        self.pool = nn.AvgPool1d(T)
+        self.c1 = nn.Conv1d(cin, C + 1, 1)
+        self.fc0 = nn.Linear(C * T + (C + 1), H)
+        self.fc1 = nn.Linear(H, 2)
+
+    def forward(self, x):
+        a = torch.relu(self.c0(x)).flatten(1)
+        b = torch.relu(self.c1(self.pool(x))).flatten(1)
+        return self.fc1(torch.relu(self.fc0(torch.cat([a, b], dim=1))))
+
+
+FAMILIES.update({'F1': F1, 'Q1': Q1, 'W1': W1, 'X1': X1, 'K3': K3, 'H1': H1})
 _SHAPES = {'F1': lambda s: (s.get('cin', 1), s.get('T', 2)), 'Q1': lambda s: (s.get('cin', 1), 1),
-           'W1': lambda s: (s.get('cin', 1), 2) if s.get('nd', 1) == 1 else (s.get('cin', 1), 2, 2), 'X1': lambda s: (s.get('cin', 1), 2)}
+           'W1': lambda s: (s.get('cin', 1), 2) if s.get('nd', 1) == 1 else (s.get('cin', 1), 2, 2), 'X1': lambda s: (s.get('cin', 1), 2), 'K3': lambda s: (s.get('cin', 1), 2), 'H1': lambda s: (s.get('cin', 1), s.get('T', 2))}
